@@ -8,6 +8,17 @@
 #include "verif.h"
 #include "constants.h"       /* SOPLEX_LPF_MAX_LINE_LEN, SOPLEX_DEFAULT_INFINITY: extracted from the tree on every run */
 
+#ifdef SCALED_MAXLEN
+/* Scaled stand-in (instance readValue_scaled only): the scratch-buffer size is set to SCALED_MAXLEN instead of the tree's value, so
+ * that a token longer than the buffer fits into a completely unwound copy loop.  The sliced body is the same, it is uniform in the
+ * constant; the result is labelled as scaled and is NOT a statement about the real constant. */
+#if SOPLEX_LPF_MAX_LINE_LEN <= SCALED_MAXLEN
+#error "scaled instance expects the tree's SOPLEX_LPF_MAX_LINE_LEN to be larger than SCALED_MAXLEN"
+#endif
+#undef SOPLEX_LPF_MAX_LINE_LEN
+#define SOPLEX_LPF_MAX_LINE_LEN SCALED_MAXLEN
+#endif
+
 typedef double R;
 typedef double Real;
 static const Real infinity = SOPLEX_DEFAULT_INFINITY;
@@ -29,6 +40,7 @@ extern "C" {
    extern int    g_len;       /* line[g_len] == 0                                      */
    extern int    g_off;       /* initial offset of pos                                 */
    extern int    g_k;         /* ghost index ("for all k"), relative to pos            */
+   extern int    g_w;         /* readValue: position of a character that ends the token */
    extern char   v_k;         /* line[g_off + g_k] on entry                            */
    /* ghost record of what the callees (atof / NameSet::number / NameSet::add) were handed */
    extern int    g_calls;     /* number of calls of the recording callee               */
